@@ -16,7 +16,7 @@ HARNESS = dict(
                  ["-include", os.path.join(cbuild.VERIF, "harness", "ring_atomics.h"), "-DUSE_SIMD_ENCODING"], "ring_buffer_sched")],
 )
 TRUSTED = ["hand model lean/AwsVerif/Model/Ring.lean (tied by this correspondence run only)",
-           "translator gen/ring_gen.py for aws_ring_buffer_is_valid / aws_ring_buffer_check_atomic_ptr (regenerated from ring_buffer.inl every run)",
+           "translator gen/ring_gen.py for aws_ring_buffer_is_valid / aws_ring_buffer_check_atomic_ptr / aws_ring_buffer_is_empty (ring_buffer.inl) and for s_buf_belongs_to_pool and the single tail store of aws_ring_buffer_release (source/ring_buffer.c), regenerated every run",
            "harness/ring_atomics.h: force-included macros turning __atomic_load_n / __atomic_store_n into schedule points that also report the memory order"]
 ASSUMPTIONS = ["atomics are sequentially consistent (x86-64); one acquirer thread, one releaser releasing in acquisition order",
                "minimum_size <= requested_size for acquire_up_to (API precondition)"]
@@ -25,7 +25,8 @@ RULE = ("op sequences over one ring (sizes 1..64): acq/upto with k releases inje
 
 
 def regen(ctx):
-    """the validity predicate of ring_buffer.inl -> lean/AwsVerif/Gen/RingValid.lean (c15_is_valid_holds is about it)"""
+    """the validity predicate of ring_buffer.inl, s_buf_belongs_to_pool and the release store of ring_buffer.c -> lean/AwsVerif/Gen/RingValid.lean
+    (c15_is_valid_holds, c15_is_empty_iff, c15_outstanding_belong, c15_release_is_tail_store are about them)"""
     try:
         text = ring_gen.generate(cbuild.REPO, cbuild.config_include())
     except cfun.GenError as e:
@@ -381,7 +382,9 @@ MANIFEST = dict(
     design_ref="5.15",
     text=("Lean 4 theorems over the two-thread transition system of ring_buffer.c (every interleaving of the acquirer's "
           "tail load / head load+decision and the releaser's tail store): outstanding buffers pairwise disjoint and inside "
-          "the ring, exact / bounded sizes, empty ring serves any request <= capacity. Tied to /repo by a correspondence run "
+          "the ring, exact / bounded sizes, empty ring serves any request <= capacity; the validity predicate, the release precondition "
+          "(s_buf_belongs_to_pool) and the releaser's tail store are translated from the source on every run and proved to hold / to be the "
+          "model's release step in every reachable state. Tied to /repo by a correspondence run "
           "of the compiled model against ring_buffer.c rebuilt from the working tree with releases injected between the "
           "acquirer's two loads, plus a direct overlap oracle on real addresses."),
     note=("Trusted: Lean kernel; hand-written model Model/Ring.lean (tied by correspondence only); harness; sequentially "
